@@ -121,6 +121,9 @@ def parse_step_obs(chk, tag, states=range(0, 16), checks="none", callbacks=False
                 if st == 15 and not nested:
                     continue
                 add(st, "INT", 1, F["IGNORE"], 1 if nested else 0, force10=nested)
+            if st != 15:
+                # inside the body of a DECLARED section (level 1) but not inside a skipped one
+                add(st, "INT", 1, F["IGNORE"], 1, force10=False)
             if st == 10:
                 add(st, "INT", 1, F["IGNORE"] | F["COMMENTS"], 0)
     return obs
